@@ -1,6 +1,7 @@
 //! Probes built on kira's public traits: a backend that owns the renderer, programmable sounds,
 //! effects, modulators and decoders that log what the mixer does to them.
 
+pub mod clocksched;
 pub mod decoder;
 pub mod effect;
 pub mod sound;
